@@ -49,6 +49,15 @@ func addNullPools(a *aspec.ASpec, s aspec.Schema) {
 	if strings.Contains(string(bs), "PoolNames") && !has("PoolNames") {
 		a.Schemas = append(a.Schemas, aspec.NamedSchema{Name: "PoolNames", Schema: aspec.Schema{K: "array", Items: &aspec.Schema{K: "string"}}})
 	}
+	if strings.Contains(string(bs), "AaAliasA") && !has("AaAliasA") {
+		a.Schemas = append(a.Schemas, aspec.NamedSchema{Name: "AaAliasA", Schema: aspec.Schema{K: "ref", To: "PoolA"}})
+	}
+	if strings.Contains(string(bs), "AaAliasNames") && !has("AaAliasNames") {
+		a.Schemas = append(a.Schemas, aspec.NamedSchema{Name: "AaAliasNames", Schema: aspec.Schema{K: "ref", To: "PoolNames"}})
+		if !has("PoolNames") {
+			a.Schemas = append(a.Schemas, aspec.NamedSchema{Name: "PoolNames", Schema: aspec.Schema{K: "array", Items: &aspec.Schema{K: "string"}}})
+		}
+	}
 	if strings.Contains(string(bs), "PoolAliasA") && !has("PoolAliasA") {
 		a.Schemas = append(a.Schemas, aspec.NamedSchema{Name: "PoolAliasA", Schema: aspec.Schema{K: "ref", To: "PoolA"}})
 	}
